@@ -566,6 +566,12 @@ func fromPosts(v ssa.Value, posts *types.Var) bool {
 		if loadOfField(leaf, posts) {
 			return true
 		}
+		// the queue detached by a helper that returns it
+		if call, ok := stripConv(leaf).(*ssa.Call); ok {
+			if _, ok := returnsLoadOf(call.Call.StaticCallee(), posts); ok {
+				return true
+			}
+		}
 	}
 	return false
 }
